@@ -73,13 +73,30 @@ def itemStr : Mismatch → String
   | .extraneousKey p k => s!"(xk {pathStr p} {hexOfString k})"
   | .unresolvedTypeReference p k => s!"(utr {pathStr p} {hexOfString k})"
   | .typeMismatch p e a => s!"(tm {pathStr p} ({" ".intercalate (expHeads e)}) {tyName a})"
+  | .typeMismatchC p e a => s!"(tm {pathStr p} ({" ".intercalate (expHeads e)}) {if a.1 then "Optional" else "Callable"})"
   | .patternMismatch p e a => s!"(pm {pathStr p} {boolStr (patHead e).1} {(patHead e).2} {tyName a})"
   | .sizeMismatch p e a => s!"(sz {pathStr p} {rng2 e} {rng2 a})"
   | .countMismatch p e a => s!"(cnt {pathStr p} {rng2 e} {rng2 a})"
 
 /-! the FULL payloads (structured observation through the hook px.VerifDescribe): type terms in the syntax of harness/lat/doc.go; the two
     members of RichData outside the term language are the atoms `typeset` / `deferred`; a Variant — given or built by a merge — is `(var …)` -/
+def paramsStr : Option (List Ty × Option Rng) → String
+  | none => "n"
+  | some p => Lat.tyStr (paramTuple p)
+def retStr : Option Ty → String
+  | none => "n"
+  | some t => Lat.tyStr t
+def ct0Str (c : CT0) : String := s!"(callable {paramsStr c.params} {retStr c.ret} n)"
+def blkStr (b : Blk) : String := if b.1 then s!"(opt {ct0Str b.2})" else ct0Str b.2
+def ctStr (c : CT) : String :=
+  s!"(callable {paramsStr c.params} {retStr c.ret} " ++
+    (match c.block with | none => "n" | some b => (if b.1 then "(o " else "(r ") ++ paramsStr b.2.params ++ " " ++ retStr b.2.ret ++ ")") ++ ")"
+def cactStr : CAct → String
+  | .callable c => ctStr c
+  | .ty t => Lat.tyStr t
+
 def atomFull : Atom → String
+  | .callable o c => if o then s!"(opt {ctStr c})" else ctStr c
   | .ty t => Lat.tyStr (expandAlias t)
   | .typeSet => "typeset"
   | .deferred => "deferred"
@@ -90,6 +107,7 @@ def expFull : Exp → String
 
 def itemFull : Mismatch → String
   | .typeMismatch p e a => s!"(tm {pathStr p} {expFull e} {Lat.tyStr (expandAlias a)})"
+  | .typeMismatchC p e a => s!"(tm {pathStr p} {expFull e} {if a.1 then s!"(opt {ctStr a.2})" else ctStr a.2})"
   | .patternMismatch p e a => s!"(pm {pathStr p} {Lat.tyStr (expandAlias e)} {Lat.tyStr (expandAlias a)})"
   | m => itemStr m
 
@@ -124,41 +142,6 @@ def descs (e a : Sexp) : String :=
       else render (!al) (describe Lat.cfg Lat.sfh e a (subjectPath "x"))
   | _, _ => "bad-op"
 
-/-! ### `sigd (SIG*) ARGS` — px.DescribeSignatures(signatures, ARGS, nil)
-    SIG ::= ((T*) LO HI BLK) | nilparams     BLK ::= n | r | o   (no block type / a required block / an optional block)
-    parameter names are "1" … "n" (CallableType.ParameterNames)
-    → fault | empty | single ITEM | list (ITEM*) (ITEM*) …     (one group per signature that is listed) -/
-def sigOf : Sexp → Option Sig
-  | .atom "nilparams" => some { params := none, names := [], block := .none }
-  | .list [.list ts, lo, hi, .atom b] => do
-      let tys ← ts.mapM Lat.ty?
-      let r ← Lat.rngOf lo hi
-      let blk ← (match b with | "n" => some BlockReq.none | "r" => some .required | "o" => some .optional | _ => none)
-      pure { params := some (tys, r), names := (List.range tys.length).map fun i => toString (i + 1), block := blk }
-  | _ => none
-
-def renderS : SRes → String
-  | .fault _ => "fault"
-  | .empty => "empty"
-  | .single m => "single " ++ itemStr m
-  | .listing per => "list" ++ String.join (per.map fun ms => " (" ++ " ".intercalate ((sortRuns ms).map itemStr) ++ ")")
-
-def sigd (sigs args : Sexp) : String :=
-  if hasAlias sigs || hasAlias args then "alias" else
-  match sigs with
-  | .list ss =>
-    (match ss.mapM sigOf, Lat.ty? args with
-     | some sgs, some a =>
-        if tyUnsafe a || sgs.any (fun sg => match sg.params with | some (ts, _) => ts.any tyUnsafe | none => false) then "unsafe-key"
-        else renderS (describeSignatures Lat.cfg Lat.sfh sgs a)
-     | _, _ => "bad-op")
-  | _ => "bad-op"
-
-/-! ### `descc C X` — px.VerifDescribe("x", C, X) for an expected Callable C (model: Pcore/Model/DescribeCallable.lean)
-    C ::= (callable P R B)    P ::= n | (tup (T*) none) | (tup (T*) (LO HI))    R ::= n | T    B ::= n | (r P R) | (o P R)
-    X ::= C | T
-    → empty | fault | ITEM …   with the full payloads: a Callable as `(callable P R B)`, a block type as `(callable P R n)` or
-      `(opt (callable P R n))` -/
 def paramsOf : Sexp → Option (Option (List Ty × Option Rng))
   | .atom "n" => some none
   | e => match Lat.ty? e with
@@ -186,21 +169,43 @@ def ctOf : Sexp → Option CT
       pure ⟨p, r, b⟩
   | _ => none
 
-def paramsStr : Option (List Ty × Option Rng) → String
-  | none => "n"
-  | some p => Lat.tyStr (paramTuple p)
-def retStr : Option Ty → String
-  | none => "n"
-  | some t => Lat.tyStr t
-def ct0Str (c : CT0) : String := s!"(callable {paramsStr c.params} {retStr c.ret} n)"
-def blkStr (b : Blk) : String := if b.1 then s!"(opt {ct0Str b.2})" else ct0Str b.2
-def ctStr (c : CT) : String :=
-  s!"(callable {paramsStr c.params} {retStr c.ret} " ++
-    (match c.block with | none => "n" | some b => (if b.1 then "(o " else "(r ") ++ paramsStr b.2.params ++ " " ++ retStr b.2.ret ++ ")") ++ ")"
-def cactStr : CAct → String
-  | .callable c => ctStr c
-  | .ty t => Lat.tyStr t
+/-! ### `sigd (SIG*) ARGS [BLOCK]` — px.DescribeSignatures(signatures, ARGS, block); BLOCK ::= n | (callable P R B), the signature of the
+    lambda handed to the call (absent = n)
+    SIG ::= ((T*) LO HI BLK) | nilparams     BLK ::= n | r | o   (no block type / a required block / an optional block)
+    parameter names are "1" … "n" (CallableType.ParameterNames)
+    → fault | empty | single ITEM | list (ITEM*) (ITEM*) …     (one group per signature that is listed) -/
+def sigOf : Sexp → Option Sig
+  | .atom "nilparams" => some { params := none, names := [], block := none }
+  | .list [.list ts, lo, hi, .atom b] => do
+      let tys ← ts.mapM Lat.ty?
+      let r ← Lat.rngOf lo hi
+      let b11 : CT0 := ⟨some ([.unit], some ⟨1, 1⟩), none⟩     -- Callable[1, 1] as ParseType builds it: the parameter tuple Tuple[Unit, 1, 1]
+      let blk ← (match b with | "n" => some (none : Option Blk) | "r" => some (some (false, b11)) | "o" => some (some (true, b11)) | _ => none)
+      pure { params := some (tys, r), names := (List.range tys.length).map fun i => toString (i + 1), block := blk }
+  | _ => none
 
+def renderS : SRes → String
+  | .fault _ => "fault"
+  | .empty => "empty"
+  | .single m => "single " ++ itemStr m
+  | .listing per => "list" ++ String.join (per.map fun ms => " (" ++ " ".intercalate ((sortRuns ms).map itemStr) ++ ")")
+
+def sigd (sigs args blk : Sexp) : String :=
+  if hasAlias sigs || hasAlias args then "alias" else
+  match sigs, (match blk with | .atom "n" => some (none : Option CT) | b => (ctOf b).map some) with
+  | .list ss, some ab =>
+    (match ss.mapM sigOf, Lat.ty? args with
+     | some sgs, some a =>
+        if tyUnsafe a || sgs.any (fun sg => match sg.params with | some (ts, _) => ts.any tyUnsafe | none => false) then "unsafe-key"
+        else renderS (describeSignatures Lat.cfg Lat.sfh sgs a ab)
+     | _, _ => "bad-op")
+  | _, _ => "bad-op"
+
+/-! ### `descc C X` — px.VerifDescribe("x", C, X) for an expected Callable C (model: Pcore/Model/DescribeCallable.lean)
+    C ::= (callable P R B)    P ::= n | (tup (T*) none) | (tup (T*) (LO HI))    R ::= n | T    B ::= n | (r P R) | (o P R)
+    X ::= C | T
+    → empty | fault | ITEM …   with the full payloads: a Callable as `(callable P R B)`, a block type as `(callable P R n)` or
+      `(opt (callable P R n))` -/
 def cmStr : CM → String
   | .param m => itemFull m
   | .missingRequiredBlock p => s!"(mrb {pathStr p})"
@@ -227,7 +232,8 @@ def descc (e a : Sexp) : String :=
 
 def exec : List Sexp → String
   | [.atom "descc", e, a] => descc e a
-  | [.atom "sigd", sigs, args] => sigd sigs args
+  | [.atom "sigd", sigs, args] => sigd sigs args (.atom "n")
+  | [.atom "sigd", sigs, args, blk] => sigd sigs args blk
   | [.atom "descs", e, a] => descs e a
   | [.atom "descx", e, a, .atom _, .list _] => descs e a
   | _ => "bad-op"
